@@ -5,6 +5,9 @@ Sub-checks
           rendered as literals, against vp/ref/strings.py (own transcription of F&O 3.1 / XPath 1.0 4.2)
   lxml  : XPath 1.0 parser against libxml2 (lxml.etree.XPath with $variables) on the 1.0 string functions
   laws  : the round trips / relations named by the property, evaluated as nested expressions
+  coll  : html-ascii-case-insensitive collation as 3rd argument or as the parser's default collation (two-argument
+          forms) on strings dense in ASCII and non-ASCII cased letters: compare and the five substring-matching functions
+          against the model, their mutual agreement and the partition law
   reuse : one parsed expression (literal / variable argument mixes) evaluated for 3-6 different argument tuples in a
           row, inside `for` over a sequence, and over several items of a document; every evaluation is judged
 """
@@ -44,7 +47,10 @@ ASSUMPTIONS = [
     'libxml2 differential: numbers inside fn:concat are limited to |x| < 1e9 with <= 6 fraction digits (libxml2 formats '
     'other numbers with an exponent, which XPath 1.0 forbids); string-length is compared by numeric value',
     'the html-ascii-case-insensitive collation is modelled as: fold A-Z to a-z, then code point order, one code point '
-    '= one collation unit (F&O 3.1 5.3.4); only used with the 3.1 parser',
+    '= one collation unit (F&O 3.1 5.3.4); the URI is accepted by every 2.0+ parser of the package and is judged with the '
+    'same semantics there; parsers are only ever built with the codepoint or this collation as default (never UCA / locale)',
+    'fn:index-of / distinct-values / deep-equal / min / max and the comparison operators under a collation are not judged '
+    '(not in the statement of C09)',
     'decimal and integer arguments of fn:substring are converted to xs:double first (function conversion rules)',
     'a parsed expression with $variables is evaluated many times with fresh contexts; any discrepancy is re-judged '
     'on a freshly parsed expression before it is reported',
@@ -64,6 +70,11 @@ FLOORS = {
     'reuse:3+distinct-tuples': (0.6, 'reuse:case'),
     'reuse:wrap:for': (0.12, 'reuse:case'),
     'reuse:wrap:items': (0.15, 'reuse:case'),
+    'coll:non-ascii-case': (0.6, 'coll:case'),
+    'coll:case-variant-needle': (0.12, 'coll:case'),
+    'coll:html-default': (0.2, 'coll:case'),
+    'coll:html-explicit': (0.2, 'coll:case'),
+    'ref:search:default-collation-html': (0.1, 'ref:search'),
 }
 
 CP_URI = R.CODEPOINT_COLLATION
@@ -218,7 +229,10 @@ def _mk_call(mx: _Mix, pool, versions=('1.0', '2.0', '3.0', '3.1'), lit_ok=True)
     fn = mx.pick(_V1_FUNCS if ver == '1.0' else _V2_FUNCS)
     args = _mk_args(mx, pool, ver, fn)
     lit = lit_ok and mx.below(5) == 0
-    return {'ver': ver, 'fn': fn, 'args': args, 'lit': lit}
+    case = {'ver': ver, 'fn': fn, 'args': args, 'lit': lit}
+    if ver != '1.0' and fn in _COLLATED and mx.below(3) == 0:
+        case['dc'] = 'html'          # parser built with default_collation = html-ascii-case-insensitive
+    return case
 
 
 def _mk_args(mx: _Mix, pool, ver, fn) -> list:
@@ -242,7 +256,7 @@ def _mk_args(mx: _Mix, pool, ver, fn) -> list:
             s, t = t, s
         args = [opt(S(s)), opt(S(t))]
         if v2 and fn in _COLLATED and mx.below(4) == 0:
-            args.append(['coll', 'html' if ver == '3.1' and mx.below(2) else 'cp'])
+            args.append(['coll', 'html' if mx.below(2) else 'cp'])
     elif fn == 'translate':
         s = _mk_str(mx, pool)
         chars = list(s) + ['a', 'b', '-']
@@ -337,7 +351,10 @@ def _mk_law(mx: _Mix, pool) -> dict:
     law = mx.pick(_LAWS)
     ver = mx.pick(['2.0', '3.0', '3.1'] if law in ('cp-roundtrip', 'compare') else ['1.0', '2.0', '3.0', '3.1'])
     s, t = _mk_pair(mx, pool)
-    return {'law': law, 'ver': ver, 's': s, 't': t, 'n': _mk_num(mx, pool)}
+    case = {'law': law, 'ver': ver, 's': s, 't': t, 'n': _mk_num(mx, pool)}
+    if ver != '1.0' and law == 'split' and mx.below(2) == 0:
+        case['dc'] = 'html'
+    return case
 
 
 def expand(check: str, pool) -> list:
@@ -349,6 +366,8 @@ def expand(check: str, pool) -> list:
         return [_mk_call(mx, pool, versions=('1.0',)) for _ in range(BATCH)]
     if check == 'reuse':
         return [_mk_reuse(mx, pool) for _ in range(REUSE_BATCH)]
+    if check == 'coll':
+        return [_mk_coll(mx) for _ in range(COLL_BATCH)]
     return [_mk_law(mx, pool) for _ in range(BATCH)]
 
 
@@ -488,7 +507,7 @@ def _atomic_string(a, ver):
 def _expected(case):
     """('str'|'bool'|'int'|'seq'|'empty'|'error', value)"""
     fn, ver, args = case['fn'], case['ver'], case['args']
-    coll = CP_URI
+    coll = _COLL[case.get('dc', 'cp')]
     if args and args[-1][0] == 'coll':
         coll = _COLL[args[-1][1]]
         args = args[:-1]
@@ -670,6 +689,9 @@ def _classify(case):
     elif fn in _SEARCH:
         s, t = _sval(args[0]) or '', _sval(args[1]) or ''
         coll = args[2][1] if len(args) > 2 else None
+        if coll is None and case.get('dc', 'cp') == 'html' and fn in _COLLATED:
+            coll = 'html'
+            tags.append('search:default-collation-html')
         tags.append('search')
         hit = R.contains(s, t) and t != ''
         if hit:
@@ -680,7 +702,7 @@ def _classify(case):
             tags.append('search:coll-' + coll)
         if coll == 'html':
             fold = lambda z: ''.join(chr(ord(c) + 32) if 'A' <= c <= 'Z' else c for c in z)
-            if s.casefold() != fold(s) or t.casefold() != fold(t):
+            if s.casefold() != fold(s) or t.casefold() != fold(t) or s.lower() != fold(s) or t.lower() != fold(t):
                 parts.append('non-ascii-case')
         if t == '' or s == '':
             parts.append('empty-operand')
@@ -745,33 +767,41 @@ def _root():
     return _ROOT
 
 
-def _parser(ver):
-    p = _PARSER.get(ver)
+def _parser(ver, dc='cp'):
+    """parser for an XPath version; dc = default collation ('cp' codepoint, 'html' html-ascii-case-insensitive).
+    Never a UCA / locale collation in-process."""
+    p = _PARSER.get((ver, dc))
     if p is None:
         from elementpath import XPath1Parser, XPath2Parser
         from elementpath.xpath30 import XPath30Parser
         from elementpath.xpath31 import XPath31Parser
         cls = {'1.0': XPath1Parser, '2.0': XPath2Parser, '3.0': XPath30Parser, '3.1': XPath31Parser}[ver]
-        p = cls()
-        if ver != '1.0' and p.default_collation != CP_URI:       # locale dependent default: pin it
-            p = cls(default_collation=CP_URI)
-        _PARSER[ver] = p
+        if ver == '1.0':
+            p = cls()
+        elif dc == 'html':
+            p = cls(default_collation=HTML_URI)
+        else:
+            p = cls()
+            if p.default_collation != CP_URI:       # locale dependent default: pin it
+                p = cls(default_collation=CP_URI)
+        _PARSER[(ver, dc)] = p
     return p
 
 
-def _evaluate(ver, expr, variables, fresh=False):
+def _evaluate(ver, expr, variables, fresh=False, dc='cp'):
     """('ok', result) | ('error', code, message) ; other exceptions propagate"""
     from elementpath import XPathContext, ElementPathError
     try:
         if fresh:
-            parser = type(_parser(ver))(**({} if ver == '1.0' else {'default_collation': CP_URI}))
+            parser = type(_parser(ver))(**({} if ver == '1.0' else {'default_collation': _COLL[dc]}))
             token = parser.parse(expr)
         else:
-            token = _TOKENS.get((ver, expr))
+            token = _TOKENS.get((ver, dc, expr))
             if token is None:
-                token = _parser(ver).parse(expr)
-                if variables and len(_TOKENS) < 5000 and "'" not in expr and '"' not in expr:
-                    _TOKENS[(ver, expr)] = token
+                token = _parser(ver, dc).parse(expr)
+                if variables and len(_TOKENS) < 5000 and '"' not in expr and \
+                        "'" not in expr.replace("'" + CP_URI + "'", '').replace("'" + HTML_URI + "'", ''):
+                    _TOKENS[(ver, dc, expr)] = token
         ctx = XPathContext(_root(), variables=dict(variables))
         return ('ok', token.get_results(ctx))
     except ElementPathError as e:
@@ -869,11 +899,14 @@ def judge_call(case, rec: Recorder | None = None, prefix='ref') -> list[Disc]:
     base = f'C09/{fn}/{_vgroup(ver)}/{cls}'
     if cls.startswith('coll-html+non-ascii-case'):
         base = f'C09/coll-html/non-ascii-case/{fn}'
+    if case.get('dc', 'cp') == 'html' and fn in _COLLATED and not (case['args'] and case['args'][-1][0] == 'coll'):
+        base += '/default-collation'
     try:
-        res = _evaluate(ver, expr, variables)
+        dc = case.get('dc', 'cp')
+        res = _evaluate(ver, expr, variables, dc=dc)
         bad = _compare(case, kind, want, res)
-        if bad is not None and (ver, expr) in _TOKENS:
-            res2 = _evaluate(ver, expr, variables, fresh=True)
+        if bad is not None and (ver, dc, expr) in _TOKENS:
+            res2 = _evaluate(ver, expr, variables, fresh=True, dc=dc)
             if _compare(case, kind, want, res2) is None:
                 discs.append(Disc(f'C09/reuse/{fn}/{_vgroup(ver)}/parsed-expression-not-reusable', want, bad[1], expr))
                 return discs
@@ -890,7 +923,7 @@ def judge_call(case, rec: Recorder | None = None, prefix='ref') -> list[Disc]:
             vcase = dict(case, lit=False)
             e2, v2 = _render(vcase)
             try:
-                if _compare(vcase, kind, want, _evaluate(ver, e2, v2)) is None:
+                if _compare(vcase, kind, want, _evaluate(ver, e2, v2, dc=case.get('dc', 'cp'))) is None:
                     base = f'C09/literal/{_vgroup(ver)}/{fn}'
             except Exception:
                 pass
@@ -1029,12 +1062,15 @@ def judge_law(case, rec: Recorder | None = None) -> list[Disc]:
     law, ver, s, t = case['law'], case['ver'], case['s'], case['t']
     discs: list[Disc] = []
     vg = _vgroup(ver)
+    dc = case.get('dc', 'cp')
+    if dc == 'html':
+        vg += '/default-collation-html'
     classes = ['laws:case', 'laws:' + law]
     flags = _str_flags(s) | _str_flags(t)
     nontrivial = bool(flags & {'empty', 'astral', 'combining', 'nonxml-ws'})
 
     def ev(expr, variables):
-        r = _evaluate(ver, expr, variables)
+        r = _evaluate(ver, expr, variables, dc=dc)
         if r[0] == 'error':
             discs.append(Disc(f'C09/laws/{law}/{vg}/error/{r[1]}', 'a value', r[2][:150], f'{expr} {variables!r}'[:400]))
             return None
@@ -1047,10 +1083,16 @@ def judge_law(case, rec: Recorder | None = None) -> list[Disc]:
                 discs.append(Disc(f'C09/laws/cp-roundtrip/{vg}/value', s, got))
         elif law == 'split':
             c = ev('contains($s, $t)', {'s': s, 't': t})
-            want_c = R.contains(s, t)
+            want_c = R.contains(s, t, _COLL[dc])
+            if dc == 'html':
+                classes.append('laws:default-collation-html')
             if c is True:
                 classes.append('laws:contains-true')
-                got = ev('concat(substring-before($s, $t), $t, substring-after($s, $t))', {'s': s, 't': t})
+                if dc == 'html':       # the matched part of $s takes the place of $t (one collation unit per code point)
+                    got = ev('concat(substring-before($s, $t), substring($s, string-length(substring-before($s, $t)) + 1, '
+                             'string-length($t)), substring-after($s, $t))', {'s': s, 't': t})
+                else:
+                    got = ev('concat(substring-before($s, $t), $t, substring-after($s, $t))', {'s': s, 't': t})
                 if got is not None and got != s:
                     discs.append(Disc(f'C09/laws/split/{vg}/value', s, got, f't={t!r}'))
             if c is not None and c is not want_c:
@@ -1245,10 +1287,142 @@ def judge_reuse(case, rec=None):
 
 
 # --------------------------------------------------------------------------
+# coll: the html-ascii-case-insensitive collation (explicit 3rd argument or parser default) on strings dense in
+# cased letters; compare and the five substring-matching functions must agree with the model and with each other
+# --------------------------------------------------------------------------
+_CASE_GROUPS = ['aA', 'bB', 'kK\u212a', 'sS\u017f', 'iI\u0130\u0131', '\xe4\xc4', '\xdf\u1e9e', '\u03c3\u03a3\u03c2', '\u0436\u0416',
+                '\u01c6\u01c5\u01c4', '\xe9\xc9', '\U00010428\U00010400', 'zZ', 'cC', '\u03b2\u0392\u03d0']
+_CASE_OTHER = ['-', '1', ' ', '\u0301', '\U0001F600', '.']
+_GROUP_OF = {c: g for g in _CASE_GROUPS for c in g}
+_COLL_FNS = ['contains', 'starts-with', 'ends-with', 'substring-before', 'substring-after', 'compare', 'agree', 'partition']
+COLL_BATCH = 24
+
+
+def _mk_coll(mx: _Mix) -> dict:
+    n = 1 + mx.below(7)
+    s = ''.join(mx.pick(mx.pick(_CASE_GROUPS)) if mx.below(6) else mx.pick(_CASE_OTHER) for _ in range(n))
+    fn = mx.pick(_COLL_FNS)
+    k = mx.below(10)
+    if k < 7:
+        if fn in ('compare', 'agree') and mx.below(2):
+            i, j = 0, len(s)
+        elif fn == 'starts-with' and mx.below(2):
+            i, j = 0, 1 + mx.below(len(s))
+        elif fn == 'ends-with' and mx.below(2):
+            i, j = mx.below(len(s)), len(s)
+        else:
+            i = mx.below(len(s))
+            j = i + 1 + mx.below(min(len(s), i + 3) - i)
+        part = s[i:j]
+        m = mx.below(6)
+        if m == 0:
+            t = part
+        elif m == 1:
+            t = part.lower()
+        elif m == 2:
+            t = part.upper()
+        elif m == 3:
+            t = part.casefold()
+        else:                  # every cased letter replaced by a member of its case group
+            t = ''.join(mx.pick(_GROUP_OF[c]) if c in _GROUP_OF and mx.below(3) else c for c in part)
+    elif k < 8:
+        t = ''
+    else:
+        t = ''.join(mx.pick(mx.pick(_CASE_GROUPS)) for _ in range(1 + mx.below(2)))
+    dc = 'html' if mx.below(3) else 'cp'
+    arg = mx.pick([None, None, None, 'html', 'html', 'cp'])
+    if dc == 'cp' and arg is None and mx.below(2):
+        arg = 'html'
+    return {'ver': mx.pick(['2.0', '3.0', '3.1']), 'dc': dc, 'arg': arg, 'fn': fn, 's': s, 't': t}
+
+
+def _ascii_fold(z):
+    return ''.join(chr(ord(c) + 32) if 'A' <= c <= 'Z' else c for c in z)
+
+
+def judge_coll_case(case, rec: Recorder | None = None) -> list[Disc]:
+    ver, dc, arg, fn, s, t = case['ver'], case['dc'], case['arg'], case['fn'], case['s'], case['t']
+    discs: list[Disc] = []
+    eff = arg or dc
+    coll = _COLL[eff]
+    tail = '' if arg is None else ", '" + _COLL[arg] + "'"
+    how = eff + ('-default' if arg is None else '-explicit')
+    nonascii = any(z.lower() != _ascii_fold(z) or z.upper().lower() != _ascii_fold(z) or z.casefold() != _ascii_fold(z)
+                   for z in (s, t))
+    related = s != t and _ascii_fold(s) != _ascii_fold(t) and (t.casefold() in s.casefold() or t.lower() in s.lower())
+    cls = 'non-ascii-case' if nonascii else 'ascii'
+    classes = ['coll:case', 'coll:fn:' + fn, 'coll:' + how, 'coll:' + cls]
+    if nonascii and related:
+        classes.append('coll:case-variant-needle')      # equal under some Unicode folding, different under A-Z folding
+    if rec is not None:
+        rec.case(['coll', ver, dc, arg, fn, s, t], nontrivial=eff == 'html' and nonascii,
+                 sample={'check': 'coll', 'case': case}, classes=classes)
+    v = {'s': s, 't': t}
+
+    def ev(f):
+        expr = f'{f}($s, $t{tail})'
+        r = _evaluate(ver, expr, v, dc=dc)
+        if r[0] == 'error':
+            discs.append(Disc(f'C09/coll/{f}/{how}/{cls}/error/{r[1]}', 'a value', r[2][:150], f'{expr} s={s!r} t={t!r} default={dc}'))
+            return None
+        return r[1]
+
+    def check(f, want):
+        got = ev(f)
+        if got is None:
+            return None
+        ok = (got is want) if isinstance(want, bool) else (type(got) is type(want) and got == want)
+        if not ok:
+            discs.append(Disc(f'C09/coll/{f}/{how}/{cls}/value', want, got, f'{f}($s, $t{tail}) s={s!r} t={t!r} default={dc}'))
+        return got
+
+    REF = {'contains': R.contains, 'starts-with': R.starts_with, 'ends-with': R.ends_with, 'substring-before': R.substring_before,
+           'substring-after': R.substring_after, 'compare': R.compare}
+    try:
+        if fn in REF:
+            check(fn, REF[fn](s, t, coll))
+        elif fn == 'agree':
+            c = check('compare', R.compare(s, t, coll))
+            sw = check('starts-with', R.starts_with(s, t, coll))
+            ew = check('ends-with', R.ends_with(s, t, coll))
+            ct = check('contains', R.contains(s, t, coll))
+            if None not in (c, sw, ew, ct) and len(s) == len(t):
+                if (c == 0) != (sw is True and ew is True) or (c == 0 and ct is not True):
+                    discs.append(Disc(f'C09/coll/agree/{how}/{cls}/compare-vs-matching', 'compare = 0 <=> starts-with and ends-with',
+                                      [c, sw, ew, ct], f's={s!r} t={t!r} default={dc} arg={arg}'))
+        else:   # partition
+            ct = check('contains', R.contains(s, t, coll))
+            b = check('substring-before', R.substring_before(s, t, coll))
+            a = check('substring-after', R.substring_after(s, t, coll))
+            if ct is True and isinstance(a, str) and isinstance(b, str):
+                classes.append('coll:partition-hit')
+                if rec is not None:
+                    rec.cls('coll:partition-hit')
+                mid = s[len(b):len(s) - len(a)] if len(a) else s[len(b):]
+                if not (s.startswith(b) and s.endswith(a) and len(b) + len(a) <= len(s) and len(mid) == len(t)
+                        and R.compare(mid, t, coll) == 0):
+                    discs.append(Disc(f'C09/coll/partition/{how}/{cls}/not-a-partition', 'before + matched + after = s',
+                                      [b, mid, a], f's={s!r} t={t!r} default={dc} arg={arg}'))
+    except Exception as e:
+        discs.append(Disc(escape_bucket('C09', e) + f'/coll/{fn}/{how}', 'value', repr(e), f's={s!r} t={t!r}'))
+    return discs
+
+
+def judge_coll(case, rec=None):
+    out = []
+    for c in _cases_of('coll', case):
+        ds = judge_coll_case(c, rec)
+        if rec is not None:
+            rec.discs_of('coll', c, ds)
+        out += ds
+    return out
+
+
+# --------------------------------------------------------------------------
 # module interface
 # --------------------------------------------------------------------------
-_STRATS = {'ref': pool_strategy, 'lxml': pool_strategy, 'laws': pool_strategy, 'reuse': pool_strategy}
-_JUDGES = {'ref': judge_ref, 'lxml': judge_lxml, 'laws': judge_laws, 'reuse': judge_reuse}
+_STRATS = {'ref': pool_strategy, 'lxml': pool_strategy, 'laws': pool_strategy, 'reuse': pool_strategy, 'coll': pool_strategy}
+_JUDGES = {'ref': judge_ref, 'lxml': judge_lxml, 'laws': judge_laws, 'reuse': judge_reuse, 'coll': judge_coll}
 
 
 def selftest():
@@ -1272,8 +1446,8 @@ def selftest():
 
 def jobs(tier, seed):
     q = tier == 'quick'
-    plan = {'ref': (7, 1500 if q else 12000), 'lxml': (4, 1300 if q else 10000), 'laws': (2, 1000 if q else 8000),
-            'reuse': (3, 900 if q else 7000)}
+    plan = {'ref': (6, 1500 if q else 12000), 'lxml': (3, 1500 if q else 12000), 'laws': (2, 1000 if q else 8000),
+            'reuse': (3, 900 if q else 7000), 'coll': (2, 1200 if q else 9000)}
     out = []
     for chk, (shards, n) in plan.items():
         for i in range(shards):
